@@ -1295,6 +1295,32 @@ func init() {
 		}
 
 		// ------------------------------------------------------------ JSON: prefixes, hostile hex, random documents
+		c.Phase("json-deep-nesting") // valid documents wrapped in hundreds to thousands of objects under one key (an RPC answer's "result", "data", a key of the dialect itself) or of arrays: time and memory stay proportional to the text
+		{
+			n := uint64(0)
+			docs := c09ValidDocs(small[0].t)
+			for _, e := range c09JSONEntries {
+				for di, d := range docs[e.name] {
+					if di > 1 {
+						break
+					}
+					inner := jrender(d)
+					for _, key := range []string{"result", "data", "hex", "vin", "x"} {
+						for _, depth := range []int{50, 1000, 4000} {
+							n++
+							if !c.Case(n) {
+								continue
+							}
+							doc := strings.Repeat(`{"`+key+`":`, depth) + inner + strings.Repeat("}", depth)
+							jd(c, &c09Doc{Entry: e.name, Doc: doc, Class: "deep-nesting"})
+							if key == "x" {
+								jd(c, &c09Doc{Entry: e.name, Doc: strings.Repeat("[", depth) + inner + strings.Repeat("]", depth), Class: "deep-nesting"})
+							}
+						}
+					}
+				}
+			}
+		}
 		c.Phase("json-prefix")
 		for i := 0; i < ndocs; i++ {
 			if !c.Case(uint64(i)) {
